@@ -31,6 +31,7 @@ def run(ctx):
     ctx.explanation = EXPL
     fx = ctx.load("src", "drv_det")
     phases(ctx, fx)
+    remote_state(ctx, fx)
     new_work(ctx, fx)
     winners(ctx, fx)
     taint(ctx, fx)
@@ -92,6 +93,106 @@ def phases(ctx, fx):
                         flag, fn.loc(p).split(":")[-1], fn.loc(q).split(":")[-1]))
         ctx.ob("C07.flags.barrier-interval", EX + "::go", not det, "; ".join(sorted(set(det))[:4]), fn.loc(), "flags",
                fnkey=f["key"])
+
+
+def _callee(fx, e):
+    fk = e.get("fk")
+    if not fk:
+        return None
+    idx = getattr(fx, "_by_fk", None)
+    if idx is None:
+        idx = {}
+        for g in fx.functions:
+            if g["kind"] != "pattern":
+                idx.setdefault(g["key"].split("(")[0], []).append(g)
+        fx._by_fk = idx
+    for g in idx.get(fk, ()):
+        if g["qn"] == e.get("fn") and g["key"].startswith(fk + "("):
+            return g
+    return None
+
+
+_eff = {}
+
+
+def effects(fx, g, depth=5):
+    """(fields read through another thread's slot, fields written) by g and its callees that do not themselves contain a
+    barrier (those synchronise internally and are treated as barriers by the caller); fields are fully-qualified names"""
+    k = g["key"]
+    if k in _eff:
+        return _eff[k]
+    _eff[k] = (frozenset(), frozenset())        # recursion guard
+    gn = Fn(g)
+    al = gn.aliases()
+    rd, wr = set(), set()
+    for _, e in gn.events():
+        if e.get("k") == "read":
+            t = e.get("e")
+            if isinstance(t, dict) and t.get("k") == "mem" and t.get("fq") and "getRemote(" in S(t, al):
+                rd.add(t["fq"])
+        elif e.get("k") == "assign":
+            t = e.get("lhs")
+            if isinstance(t, dict) and t.get("k") == "mem" and t.get("fq"):
+                wr.add(t["fq"])
+        elif e.get("k") == "call" and depth > 0:
+            h = _callee(fx, e)
+            if h is not None and h.get("file", "").endswith(DFILE) and not callee_has_barrier(fx, e):
+                r2, w2 = effects(fx, h, depth - 1)
+                rd |= r2
+                wr |= w2
+    _eff[k] = (frozenset(rd), frozenset(wr))
+    return _eff[k]
+
+
+def remote_state(ctx, fx):
+    ctx.rule("C07.remote.barrier-interval",
+             "Executor::go: for every field some callee reads through another thread's slot (getRemote) - the window "
+             "manager's committed/iterations counters - a barrier lies on every path (incl. loop back edges) between a call "
+             "that reads it remotely and a call that writes it, in both directions (transitive read/write summaries over the "
+             "deterministic executor; callees that contain a barrier on every path count as barriers)")
+    fs = insts(fx, EX + "::go")
+    seen_fields = set()
+    for f in fs:
+        fn = ctx.fn(f)
+        env = R.const_call_env(fx, fn)
+        eok = R.edges_under(fn, env)
+        bw = lambda e: is_call(name="wait", recv=r"barrier$")(e) or \
+            (e.get("k") == "call" and e.get("fk") and callee_has_barrier(fx, e))
+        calls = []
+        for p, e in fn.events(lambda e: e.get("k") == "call" and e.get("fk")):
+            if bw(e):
+                continue
+            h = _callee(fx, e)
+            if h is None or not h.get("file", "").endswith(DFILE):
+                continue
+            calls.append((p, e, effects(fx, h)))
+        shared = set()
+        for _, _, (r, w) in calls:
+            shared |= r
+        seen_fields |= shared
+        det = []
+        for fq in sorted(shared):
+            short = fq.split("::")[-1]
+            readers = [(p, e) for p, e, (r, w) in calls if fq in r]
+            writers = [(p, e) for p, e, (r, w) in calls if fq in w]
+            wpos = {p for p, _ in writers}
+            rpos = {p for p, _ in readers}
+            for p, e in readers:
+                h, _ = fn.search([fn.after(p)], stop=lambda x: bw(x) or any(x is fn.ev(q) for q in wpos), edge_ok=eok)
+                for q in h:
+                    if q in wpos:
+                        det.append("%s read from other threads by %s (line %s), then written by %s (line %s) with no barrier "
+                                   "in between" % (short, e.get("name"), e.get("l"), fn.ev(q).get("name"), fn.ev(q).get("l")))
+            for p, e in writers:
+                h, _ = fn.search([fn.after(p)], stop=lambda x: bw(x) or any(x is fn.ev(q) for q in rpos), edge_ok=eok)
+                for q in h:
+                    if q in rpos:
+                        det.append("%s written by %s (line %s), then read from other threads by %s (line %s) with no barrier "
+                                   "in between" % (short, e.get("name"), e.get("l"), fn.ev(q).get("name"), fn.ev(q).get("l")))
+        ctx.ob("C07.remote.barrier-interval", EX + "::go", not det, "; ".join(sorted(set(det))[:4]), fn.loc(),
+               "remote:" + ",".join(sorted(x.split("::")[-1] for x in shared)), fnkey=f["key"],
+               nontrivial=bool(shared))
+    ctx.floor("remotely read fields seen from Executor::go (window counters)", len(seen_fields), 2)
 
 
 _cb = {}
